@@ -243,6 +243,9 @@ func (t *Token) validate() error {
 	if _, err := command.Parse(t.command.String()); err != nil {
 		errs = errors.Join(errs, fmt.Errorf("invalid command: %w", err))
 	}
+	if err := t.arguments.Validate(); err != nil {
+		errs = errors.Join(errs, fmt.Errorf("invalid arguments: %w", err))
+	}
 
 	return errs
 }
